@@ -154,14 +154,12 @@ Definition rr_base (c : cfg) (f : list call) : bool :=
   && (1 <=? gdepth c).
 Definition no_sw (c : cfg) (l : list N) : bool :=
   forallb (fun k => negb (q_trace_on (trig_of c k)) && negb (q_trace_off (trig_of c k))) l.
-(* depth= triggers agree at both times since the fix b3d28e2 (a rejected -pg entry undoes its trigger), except
-   below an -F function (filter-below-depth-trigger, known finding) and for depth=0 on -pg (the undo gives the
-   callees of the rejected function the normal budget; being repaired in /repo): compared when there is no -F at
-   all and every depth= value is positive *)
+(* depth= triggers agree at both times since the fix c9e77e5 (a rejected -pg entry whose trigger changed the filter
+   state keeps a not-recorded shadow stack entry), except below an -F function (filter-below-depth-trigger,
+   known finding): compared when there is no -F at all *)
 Definition depth_ok (c : cfg) (l : list N) : bool :=
   forallb (fun k => match q_depth (trig_of c k) with None => true | Some _ => false end) l
-  || (forallb (fun k => match q_filter (trig_of c k) with Some true => false | _ => true end) l
-      && forallb (fun k => match q_depth (trig_of c k) with Some d => 0 <? d | None => true end) l).
+  || forallb (fun k => match q_filter (trig_of c k) with Some true => false | _ => true end) l.
 Definition rr_class_of (c : cfg) (f : list call) : bool :=
   let l := flat_map fns_of f in rr_base c f && no_sw c l && depth_ok c l.
 Definition rr_class (k : rcase) : bool := rr_class_of (rr_cfg k) (rr_forest k).
